@@ -8,6 +8,7 @@ WT=/tmp/seedchk-$ID
 export CARGO_TARGET_DIR=/tmp/seedchk-target CARGO_NET_OFFLINE=true
 git -C /repo worktree remove --force "$WT" >/dev/null 2>&1
 git -C /repo worktree add -q --detach "$WT" HEAD || exit 9
+cp /repo/Cargo.lock "$WT/Cargo.lock" 2>/dev/null
 LOG="$SD/confirm.log"; : > "$LOG"
 cp "$SD/demo_mut.rs" "$WT/regexml/tests/demo_mut.rs"
 ( cd "$WT" && timeout 900 cargo test --offline -p regexml --test demo_mut ) >>"$LOG" 2>&1; base=$?
